@@ -19,6 +19,13 @@ func GroupBy(size int, underlying interface{}) (Iterator, error) {
 	group := []reflect.Value{}
 	switch u.Kind() {
 	case reflect.Array, reflect.Slice:
+		if u.Kind() == reflect.Array && !u.CanAddr() {
+			// an array passed by value cannot be sliced; work on a copy
+			a := reflect.New(u.Type()).Elem()
+			a.Set(u)
+			u = a
+		}
+
 		if u.Len() == size {
 			return &groupBy{
 				group: []reflect.Value{u},
